@@ -2972,6 +2972,14 @@ top:
             goto LBL_D;
         }
     }
+    /* too big */
+    while (pstm_cmp_mag(&D, b) != PSTM_LT)
+    {
+        if ((res = pstm_sub(&D, b, &D)) != PSTM_OKAY)
+        {
+            goto LBL_D;
+        }
+    }
     if ((res = pstm_copy(&D, c)) != PSTM_OKAY)
     {
         goto LBL_D;
